@@ -13,6 +13,10 @@ R3  the NUL-versus-end-of-buffer test precedes every refill: each call of yy_get
 R4  7-bit refusal (flex itself): ccladd checks the character before storing it into ccltbl; in mkstate every path to
     the return that avoids check_char takes the `sym < 0` (class) or `sym == SYM_EPSILON` edge; check_char refuses
     characters >= ctrl.csize.
+R6  the three places that make DFA transitions (match loop, yy_get_previous_state, yy_try_NUL_trans) record the same
+    backing-up information (yy_last_accepting_state / yy_last_accepting_cpos).
+R7  the saved copies in the buffer object (yy_buffer_state.yy_n_chars, .yy_buf_pos) are only read to reload the scanner
+    registers; R3's end pointer is formed from the register.
 R5  input bytes index tables unsigned: in yylex / yy_get_previous_state / yy_try_NUL_trans every byte loaded through a
     pointer into the buffer that flows into the index of a scanner table is zero-extended, never sign-extended.
 """
@@ -304,14 +308,94 @@ def r3(ctx, sc):
                         return dd is not None and dd.op == 'load' and cell_role(a.loc(dd.ops[0])) == 'CBUFP'
                     def is_end(val):
                         g = gep_parts(sc, fn, val)
-                        return bool(g) and g[1] == 'CHBUF' and isinstance(g[2], tuple) and cell_role(g[2]) == 'NCHARS' and g[3] == 0
+                        return bool(g) and g[1] == 'CHBUF' and isinstance(g[2], tuple) and cell_role(g[2]) == 'NCHARS' and not saved_in_buffer(g[2]) and g[3] == 0
                     if not ((is_scanptr(x) and is_end(y)) or (is_scanptr(y) and is_end(x))): continue
                     sides = [t for t in cfg.succ[b] if cfg.dominates(t, call.blk)]
                     if len(sides) == 1: found = (br, d)
                 if found:
                     rep.ok('C04.R3', '%s %s: yy_get_next_buffer@%s is on one side of the test yy_c_buf_p %s &yy_ch_buf[yy_n_chars]@%s' % (v.name, fn.name, call.line, found[1].pred, found[0].line))
                 else:
-                    rep.fail('C04.R3', key, where(call), 'the call of yy_get_next_buffer is not guarded by a comparison of yy_c_buf_p with &yy_ch_buf[yy_n_chars] (a NUL in the text would be taken for the end of the buffer) [variant %s]' % v.name, variant=v.describe())
+                    rep.fail('C04.R3', key, where(call), 'the call of yy_get_next_buffer is not guarded by a comparison of yy_c_buf_p with &yy_ch_buf[yy_n_chars] formed from the count register of the scanner (a NUL in the text would be taken for the end of the buffer) [variant %s]' % v.name, variant=v.describe())
+    return n
+
+# ---------------------------------------------------------------- R6
+
+BACKUP_CELLS = ('CPOS', 'LASTSTATE')
+
+def r6(ctx, sc, lex):
+    """sibling agreement of the three places that make DFA transitions: the match loop of yylex, the re-scan in
+    yy_get_previous_state and the single step in yy_try_NUL_trans record the same backing-up information
+    (yy_last_accepting_state / yy_last_accepting_cpos).  If the NUL step does not, an accepting state entered on a NUL
+    is forgotten and a later back-up returns a shorter (or wrong) match."""
+    rep = ctx.rep; v = sc.v
+    fns = [(lex, 'yylex'), (sc.fn('GPS'), 'yy_get_previous_state'), (sc.fn('NUL'), 'yy_try_NUL_trans')]
+    if any(f is None for f, _ in fns):
+        rep.broken('%s: yy_get_previous_state / yy_try_NUL_trans not found' % v.name)
+    kept = {nm: frozenset(r for r in BACKUP_CELLS if sc.fa(f).cell_stores(r)) for f, nm in fns}
+    ref = frozenset().union(*kept.values())
+    if not ref:
+        c03.vac(rep, v, 'C04.R6: no backing-up cells are written anywhere (REJECT scanners keep a state stack; or the DFA never backs up)')
+        return 0
+    n = 0
+    for f, nm in fns:
+        n += 1
+        key = 'C04.R6:%s:%s:backing-up-info:%s' % (skel(v), nm, mode_label(v))
+        if kept[nm] != ref:
+            miss = sorted(ref - kept[nm])
+            who = [x for x in kept if kept[x] == ref]
+            rep.fail('C04.R6', key, fwhere(f), '%s does not record %s although %s does: an accepting state entered there is lost for backing up [variant %s; options %s]' % (
+                nm, ' / '.join({'CPOS': 'yy_last_accepting_cpos', 'LASTSTATE': 'yy_last_accepting_state'}[m] for m in miss), ', '.join(who), v.name, ' '.join(v.options)),
+                variant=v.describe(), replay_input='-CF (or -Cf) scanner whose DFA backs up, e.g. rules "ab\\0cd" and "a"; an input in which the longer rule fails after the NUL')
+        else:
+            st = sc.fa(f).cell_stores('CPOS')
+            rep.ok('C04.R6', '%s %s records %s (@%s)' % (v.name, nm, '+'.join(sorted(ref)), ','.join(str(x.line) for x in st[:3])))
+    return n
+
+# ---------------------------------------------------------------- R7
+
+def saved_in_buffer(loc):
+    """the location is a member of the buffer object (struct yy_buffer_state), i.e. the saved copy, not the scanner register"""
+    return isinstance(loc, tuple) and loc and loc[0] == 'field' and 'buffer_state' in loc[1]
+
+def r7(ctx, sc):
+    """the scanner works on registers (yy_n_chars, yy_c_buf_p) that yy_load_buffer_state loads from the buffer object and
+    that are written back only when buffers are switched; in between the saved copies are stale.  So every load of a
+    saved copy (yy_buffer_state.yy_n_chars / .yy_buf_pos) may only be stored into the corresponding register."""
+    rep = ctx.rep; v = sc.v; n = 0
+    want = {'NCHARS': ('NCHARS',), 'BUFPOS': ('CBUFP', 'TEXT')}
+    for f in sc.mod.functions.values():
+        a = None
+        for x in f.ins:
+            if x.op != 'load': continue
+            if a is None: a = sc.fa(f)
+            l = a.loc(x.ops[0])
+            r = cell_role(l)
+            if r not in want or not saved_in_buffer(l): continue
+            n += 1
+            bad = None
+            work = [x.res]; seen = set()
+            while work and bad is None:
+                rr = work.pop()
+                if rr in seen: continue
+                seen.add(rr)
+                for u in f.uses().get(rr, []):
+                    if u.op in ('sext', 'zext', 'trunc', 'bitcast'): work.append(u.res)
+                    elif u.op == 'store' and u.ops[0] == ('reg', rr):
+                        tl = a.loc(u.ops[1])
+                        if cell_role(tl) in want[r] and not saved_in_buffer(tl): continue
+                        if tl[0] == 'local':
+                            # through a temporary: follow its loads
+                            for y in a.local_loads(tl[1]): work.append(y.res)
+                            continue
+                        bad = u
+                    else: bad = u
+            nm = {'NCHARS': 'yy_n_chars', 'BUFPOS': 'yy_buf_pos'}[r]
+            key = 'C04.R7:%s:%s:saved-%s-used-directly' % (skel(v), norm(f.name), nm)
+            if bad is not None:
+                rep.fail('C04.R7', key, where(bad), '%s uses the copy of %s saved in the buffer object (loaded at line %s) instead of the scanner register; the saved copy is stale between yy_load_buffer_state and the next buffer switch (e.g. after a refill) [variant %s]' % (
+                    norm(f.name), nm, x.line, v.name), variant=v.describe())
+            else:
+                rep.ok('C04.R7', '%s %s: saved %s loaded@%s only to reload the register' % (v.name, norm(f.name), nm, x.line))
     return n
 
 # ---------------------------------------------------------------- R4 (flex itself)
@@ -470,7 +554,7 @@ def run(ctx):
     vs = [v for v in ctx.variants() if c03.usable(v)]
     rep.require(len(vs) >= 60, 'only %d scanner variants compiled to IR' % len(vs))
     positive_control(ctx)
-    tot = {'R1': 0, 'R2': 0, 'R3': 0, 'R5': 0}
+    tot = {'R1': 0, 'R2': 0, 'R3': 0, 'R5': 0, 'R6': 0, 'R7': 0}
     backends = set()
     for v in vs:
         sc = Scanner(v)
@@ -481,6 +565,8 @@ def run(ctx):
         tot['R2'] += r2(ctx, sc)
         tot['R3'] += r3(ctx, sc)
         tot['R5'] += r5(ctx, sc)
+        tot['R6'] += r6(ctx, sc, lex)
+        tot['R7'] += r7(ctx, sc)
     n4 = r4(ctx)
     rep.require(backends == {'nr', 'r', 'cxx', 'c99', 'go'}, 'back ends analysed: %s' % sorted(backends))
     rep.setcount('variants_analysed', len(vs))
@@ -490,7 +576,9 @@ def run(ctx):
     rep.require(tot['R2'] >= 5 * len(vs), 'C04.R2 matched %d instances, 4..7 per variant expected' % tot['R2'])
     rep.require(tot['R3'] >= 2 * len(vs) - 8, 'C04.R3 matched %d instances, 2 per variant (yylex, yyinput) expected' % tot['R3'])
     rep.require(tot['R5'] >= 2 * len(vs), 'C04.R5 matched %d byte-to-table-index flows, at least 2 per variant (match loop of yylex, yy_get_previous_state) expected' % tot['R5'])
-    for r in ('C04.R1', 'C04.R2', 'C04.R3', 'C04.R5'): rep.floor(r, 1, 'see instances_* counters')
+    rep.require(tot['R6'] >= 3 * (len(vs) // 2), 'C04.R6 matched %d instances, 3 per non-REJECT variant expected' % tot['R6'])
+    rep.require(tot['R7'] >= 3 * len(vs), 'C04.R7 matched %d loads of saved buffer state, 3 per variant expected (2 in yy_load_buffer_state, 1 in yylex)' % tot['R7'])
+    for r in ('C04.R1', 'C04.R2', 'C04.R3', 'C04.R5', 'C04.R6', 'C04.R7'): rep.floor(r, 1, 'see instances_* counters')
     rep.floor('C04.R4', 3, 'ccladd, mkstate, check_char')
     rep.undecided += ['behaviour of NUL relative to refills, back-ups and push-back for all inputs',
                       'the comparison operator of the NUL-versus-end test (<= in yylex, < in yyinput) - a value question',
